@@ -2,6 +2,7 @@
 from __future__ import annotations
 
 import ast
+import re
 
 from ..absint import Const, Obj, Tup, explore, vkey
 from ..core import Unrecognised, Report
@@ -207,7 +208,9 @@ def r3_exit(repo, report):
             if code in ("0", "None", ""):
                 all_exit = False
             lg = [i for i, e in enumerate(r.effects) if e[0] == "call" and e[1] in ("logger.error", "logger.critical", "logger.exception")]
-            if not lg or lg[0] > r.effects.index(ex[-1]) or "E" not in r.effects[lg[0]][2]:
+            # the message is the exception itself (its str()), not fields of it that a particular subclass may lack:
+            # an OSError built from a plain message (gzip.BadGzipFile) has strerror None and filename None
+            if not lg or lg[0] > r.effects.index(ex[-1]) or not re.search(r"(?<![\w.])E(?![\w.(\[])", r.effects[lg[0]][2]):
                 logs = False
         return logs, all_exit, sorted(codes), rows
 
